@@ -11,8 +11,7 @@ if len(sys.argv) > 1 and sys.argv[1] == '_exec':
     from sim import core, engines, seams
     seams.import_phylib()
     doc = json.load(open(sys.argv[2]))
-    res = core.execute_plan(engines.get(doc['engine']), doc['plan'], doc['property'],
-                            doc.get('tier', 'quick'))
+    res = core.execute_with_prelude(doc)
     print(json.dumps({'verdict': res.verdict, 'signature': res.signature,
                       'log_digest': res.log_digest}))
     sys.exit(0)
